@@ -142,7 +142,7 @@ def h_dup(c0: int, c1: int, c2: int, c3: int, c4: int, g0: int, g1: int, g2: int
 REAL_POOL = [b"", b"x" * 70000, b"x" * 69999 + b"y", b"x" * 70001, b"line\r\nline\n", b"line\nline\n"]
 
 
-def h_real(c0: int, c1: int, c2: int, c3: int, l0: bool) -> bool:
+def h_real(c0: int, c1: int, c2: int, c3: int, l0: bool, lfirst: bool) -> bool:
     """
     pre: 0 <= c0 < 6 and 0 <= c1 < 6 and 0 <= c2 < 6 and 0 <= c3 < 6 and c0 == P["fix"]
     post: _
@@ -176,8 +176,13 @@ def h_real(c0: int, c1: int, c2: int, c3: int, l0: bool) -> bool:
                 content[os.path.join(d, n)] = REAL_POOL[ci]
             members = list(content)
             if l0:
+                # a link to a.c, enumerated after its target or (lfirst) before every file: the target keeps its place
+                # in its group either way
                 os.symlink(os.path.join(d, "a.c"), os.path.join(d, "lnk.c"))
-                members.append(os.path.join(d, "lnk.c"))
+                if lfirst:
+                    members.insert(0, os.path.join(d, "lnk.c"))
+                else:
+                    members.append(os.path.join(d, "lnk.c"))
             got = {frozenset(str(p) for p in g) for g in report.find_duplicates(memfs.FakeCodeBase(members))}
             part = {}
             for m, b in content.items():
@@ -191,7 +196,7 @@ def h_real(c0: int, c1: int, c2: int, c3: int, l0: bool) -> bool:
         finally:
             shutil.rmtree(d, ignore_errors=True)
     if P.get("_replay"):
-        LAST.update(content_index=cs, link=bool(l0), why=why)
+        LAST.update(content_index=cs, link=bool(l0), link_enumerated_first=bool(lfirst), why=why)
     return why is None
 
 
